@@ -106,8 +106,8 @@ def _bits(a):
 
 def _prior_export(case, ctx, rng, d):
     """History: an earlier export in the same process with explicit, lossy number formats must not influence a later default export."""
-    kind = case["cseed"] % 4
-    fmts = [("%.3f", "%.2f"), ("%d", "%d"), ("%.1e", "%.1e")][case["cseed"] % 3]
+    kind = gen.pick(case) % 4
+    fmts = [("%.3f", "%.2f"), ("%d", "%d"), ("%.1e", "%.1e")][gen.pick(case) % 3]
     if kind == 0:
         obj = ttb.tensor(rng.standard_normal((2, 3)))
     elif kind == 1:
@@ -125,7 +125,7 @@ def run_case(case, ctx):
     shape = tuple(int(x) for x in case["shape"])
     d = tempfile.mkdtemp(prefix="pvm_c16_")
     try:
-        prior = case["cseed"] % 3 == 0
+        prior = gen.pick(case) % 3 == 0
         ctx.feat(after_explicit_format=prior)
         if prior:
             _prior_export(case, ctx, np.random.default_rng(case["cseed"] + 1), d)
@@ -158,7 +158,7 @@ def _run(case, ctx, rng, shape, path):
             A.reshape(-1)[0] = 0.0
             A.reshape(-1)[1] = -0.0
         T = ttb.tensor(np.ascontiguousarray(A)) if case.get("layout") == "C" else ttb.tensor(A.copy())
-        if case["cseed"] % 3 == 1 and fam != "special":
+        if gen.pick(case) % 3 == 1 and fam != "special":
             # object history: a tensor enlarged by assignment (its buffer is laid out differently from a constructed one)
             T = gen.mk_tensor(ttb, A, "grown")
             ctx.feat(hist="grown")
